@@ -395,6 +395,32 @@ pub fn run_c09(tier: &str, seed: u64, report: &mut Report) {
         let (sc, case_id) = if sidx == 2 { report.hit("directed:tail-started-version"); scenario_tail_started(report, "dmg-prefix") } else if sidx % 2 == 1 { scenario_open(case_seed, report, "dmg-prefix") } else { scenario(case_seed, report, "dmg-prefix") };
         let mut rng = Rng::new(case_seed ^ 0xD);
         let cases = plan(&sc.run.arch, &mut rng, if thorough { 6 } else { 2 }, true);
+        // ---- a stored file that CANNOT BE READ at the moment (an I/O or permission error from storage, the file
+        // itself intact): for validation that is a file it could not check — it must say so, not report a healthy
+        // archive.  Heads and index hunks for both modes, blocks for the full one.  (Real code + oracle.)
+        if sidx < 2 {
+            let files: Vec<String> = state_map(&sc.pre_state).into_iter().filter(|(k, v)| matches!(file_class(k), "hunk" | "head" | "block") && (v.starts_with("hunk:") || v.starts_with("head:") || v.starts_with("block:"))).map(|(k, _)| k).collect();
+            for f in files.iter().take(if thorough { 40 } else { 12 }) {
+                for kind in ["pd", "ot"] {
+                    for quick in [false, true] {
+                        if quick && file_class(f) == "block" {
+                            continue;
+                        }
+                        // only files some complete or interrupted version actually needs
+                        let v = real_validate(&sc.run.arch, quick, IceptConfig { faults: vec![fault_spec("read", f, 0, kind)], ..Default::default() });
+                        let read_failed = v.trace.iter().any(|l| l.starts_with(&format!("op read {f} ")) && !l.ends_with(" ok"));
+                        report.case(&format!("unreadable/{case_seed}/{f}/{kind}/{quick}"), read_failed);
+                        if !read_failed {
+                            continue;
+                        }
+                        report.hit(&format!("validate:read-fault:{}", file_class(f)));
+                        if !reports_error(&v) {
+                            report.oracle_fail("validate:silent-on-unreadable-file", json!({"scenario": case_id, "file": f, "read_fails_with": kind, "quick": quick}), "validation reported a healthy archive although reading one of its files failed", json!({"result": trunc(&v.result), "events": v.events.iter().take(3).collect::<Vec<_>>()}));
+                        }
+                    }
+                }
+            }
+        }
         let mut session = Session::new();
         let mut pend = Vec::new();
         // interrupted versions (head, no tail): what they restore to BEFORE the damage
